@@ -376,10 +376,40 @@ def run(rep, tier, seed):
     fcases = forest_cases(cases)
     lf.run_cases(fcases, model=False)
     glr_model_answers(fcases)
+    witness_n2(rep)
     ecases = engine_only_cases(rng, tier)
     lf.run_cases(ecases, model=True, extra_requests=lambda c: ["glr cert"], parse_model=False)
     glr_model_answers(ecases)
     check(rep, cases, fcases, proofs_ok, ecases)
+
+
+def witness_n2(rep):
+    """C03-N2 (known finding): the witness is judged against its hand-derived number of derivations (two tokenizations, one
+    derivation each); a different count than the recorded loss is reported as an ordinary violation"""
+    from common import load_findings
+    f = next((x for x in load_findings() if x.get("key") == "C03-N2-frontier-key-after-whitespace"), None)
+    if f is None:
+        return
+    w = f["witness"]
+    c = lf.Case(w["grammar"], w["settings"].split(" "), [("GLR", "0", w["input"], {})], gram=None, tag="finding:" + f["key"])
+    c.max_trees = 8
+    lf.run_cases([c], model=True, parse_model=True)
+    res = c.results[0] if c.results else ""
+    try:
+        n = int(res.split(" ")[1]) if res.startswith("ok ") else None
+    except ValueError:
+        n = None
+    rep.count("witness_C03-N2_solutions:" + str(n))
+    if c.model and c.model[0] != res:
+        rep.notes.append("C03-N2 witness: engine model and implementation answer differently: " + c.model[0][:80] + " / " + res[:80])
+    if n == w["expected_solutions"]:
+        if f["status"] == "known":
+            rep.notes.append("known finding C03-N2 no longer reproduces on its witness")
+    elif f["status"] == "known" and n == 1:
+        rep.known_finding(f["key"], f["what"][:300])
+    else:
+        rep.violation(dict(c.describe(0), kind="impl!=oracle", why=f"the input has {w['expected_solutions']} derivations (two tokenizations), "
+                           f"the GLR parser answers: {res[:120]}"))
 
 
 def engine_only_cases(rng, tier):
